@@ -451,6 +451,9 @@ template <typename T> static void c12_family(rng& g, bool thorough)
     // relative error 0.03 each): a target of 0.005 is reached by the combination at the first callback, however imprecise the last result
     c12_run<plain_k<T>, T>(g, s_ordinary, 0, 0, true, 0.005, 0, true, 0, 20000);
     c12_run<vegas_k<T>, T>(g, s_ordinary, 0, 0, true, 0.005, 0, true, 2, 20000);
+    // ... and continued with iterations in which nothing is hit at all: the combination is what it was, the target is reached at the first callback
+    c12_run<plain_k<T>, T>(g, s_zero, 0, 0, true, 0.005, 0, true, (int) g.below(4), 20000);
+    c12_run<vegas_k<T>, T>(g, s_zero, 0, 0, true, 0.005, 0, true, 0, 20000);
     // resumed from a checkpoint whose two results (200 calls each, relative error about 0.05 each) count: together with the first new
     // iteration the combination is at about 0.03 - a target of 0.04 is reached at the first callback after the resumption
     c12_run<plain_k<T>, T>(g, s_ordinary, 0, 0, true, 0.04, 0, true, (int) g.below(4), 200);
